@@ -6,4 +6,6 @@ for _p in checks_tier.PROPS:
 CHECKS["C12"] = checks_tg.check_c12
 CHECKS["C02"] = checks_file.check_c02
 CHECKS["C04"] = checks_file.check_c04
+CHECKS["C03"] = checks_file.check_c03
+CHECKS["C01"] = checks_file.check_c01
 REPLAYERS = {}
